@@ -326,6 +326,10 @@ def check_cli(cr, ctx):
     for name, curated, scs in CSV_SNAP[0]:
         chroms = [n for r, n in scs if r in (1, 2)]
         if not curated:
+            if chroms:
+                # set-aside assemblies (haplotigs, contaminants, false duplicates) hold unplaced pieces only
+                ctx.violation("assembly-with-chromosomes-not-marked-curated", f"assembly {name}: chromosomes {chroms[:5]} but curated is false; files {sorted(cli_runs.output_files(cr))}", case)
+                return
             seen_uncurated = True
             continue
         f = f"{name}.chromosome.list.csv"
